@@ -1,12 +1,15 @@
 import OpcuaModel.Base.Loop
 import OpcuaModel.Model.Session
 import OpcuaModel.Gen.SessionFacts
+import OpcuaModel.Model.ReconnectSession
 /-
   Driver for C22.
     facts                                    → <verifyErrReturned> <rsaAssertChecked> <nilSessionChecked>
     connect <mode> <create> <cert> <sigkey> <sigdata> <mangle> <activate> <nsread> <nsStrings>
                                              → <ok|err|panic> <state,state,…> <activateSent 0|1>
     sigvalid <cert> <sigkey> <sigdata> <mangle>  → valid | invalid
+    recreate <mode> <create> <cert> <sigkey> <sigdata> <mangle> <activate> <nsread> <nsStrings>
+                                             → <session|retry|panic> <activateSent 0|1>     (monitor action recreateSession)
   The model is evaluated with the code facts the generator read from the tree.
 -/
 open Opcua Opcua.Session
@@ -44,6 +47,13 @@ def handle : List String → String
     | some m, some cr, some ce, some sk, some sd, some mg, some ac, some nr, some ni =>
       let r := connect Gen.sessionFacts m ⟨cr, ce, sk, sd, mg, ac, nr, ni⟩
       s!"{outcomeName r.outcome} {",".intercalate (r.states.map stateName)} {b01 r.activateSent}"
+    | _, _, _, _, _, _, _, _, _ => "bad-op"
+  | ["recreate", m, cr, ce, sk, sd, mg, ac, nr, ni] =>
+    match m.toNat? >>= Mode.ofNat?, resp? cr, cert? ce, sigKey? sk, sigData? sd, mangle? mg, resp? ac, resp? nr, bool? ni with
+    | some m, some cr, some ce, some sk, some sd, some mg, some ac, some nr, some ni =>
+      let r := ReconnectSession.recreateSession Gen.sessionFacts m ⟨cr, ce, sk, sd, mg, ac, nr, ni⟩
+      let o := match r.outcome with | .session => "session" | .retry => "retry" | .panic => "panic"
+      s!"{o} {b01 r.activateSent}"
     | _, _, _, _, _, _, _, _, _ => "bad-op"
   | ["sigvalid", ce, sk, sd, mg] =>
     match cert? ce, sigKey? sk, sigData? sd, mangle? mg with
